@@ -15,6 +15,10 @@ static SEQ: [u8; W] = [7u8; W];
 fn stub_fmt(_a: core::fmt::Arguments<'_>) -> String {
     String::new()
 }
+/// Panic-message formatting of slice-index failures dominates symbolic execution; the panic itself stays.
+fn stub_slice_index_fail(_s: usize, _e: usize, _l: usize) -> ! {
+    panic!("slice index out of range")
+}
 // tracing macros make kani-compiler 0.68 panic (intrinsics.rs:243); logging is irrelevant here.
 fn stub_interest(_c: &tracing::callsite::DefaultCallsite) -> tracing::subscriber::Interest {
     tracing::subscriber::Interest::never()
@@ -37,12 +41,23 @@ fn stub_mutex_lock<T: ?Sized>(m: &std::sync::Mutex<T>) -> std::sync::LockResult<
     }
 }
 
+/// Stub for `std::io::Error::new` where the identity of the wrapped error is irrelevant (C19 FIFO,
+/// C16 schedules): keeps the io::ErrorKind, drops the boxed payload. The bit-packed repr of a
+/// boxed custom error (pointer tagging) multiplies the size of the query by 4 per call site.
+fn stub_io_error_new<E>(kind: io::ErrorKind, error: E) -> io::Error
+where
+    E: Into<Box<dyn std::error::Error + Send + Sync>>,
+{
+    core::mem::forget(error);
+    io::Error::from(kind)
+}
+
 /// A datagram = SEQ[a..b]; identified by address and length (no byte copies needed).
 fn dgram(a: usize, b: usize) -> Bytes {
     Bytes::from_static(&SEQ).slice(a..b)
 }
 fn is_dgram(x: &Bytes, a: usize, b: usize) -> bool {
-    x.len() == b - a && (b == a || core::ptr::eq(x.as_ptr(), SEQ[a..].as_ptr()))
+    x.len() == b - a && (b == a || core::ptr::eq(x.as_ptr(), SEQ.as_ptr().wrapping_add(a)))
 }
 
 fn queue_len(incoming: &DatagramIncoming) -> usize {
@@ -61,6 +76,7 @@ fn varint_size(x: usize) -> usize {
 #[kani::proof]
 #[kani::unwind(6)]
 #[kani::stub(alloc::fmt::format, stub_fmt)]
+#[kani::stub(core::slice::index::slice_index_fail, stub_slice_index_fail)]
 #[kani::stub(std::sync::Mutex::lock, stub_mutex_lock)]
 #[kani::stub(tracing::callsite::DefaultCallsite::interest, stub_interest)]
 #[kani::stub(tracing::__macro_support::__is_enabled, stub_is_enabled)]
@@ -139,10 +155,12 @@ fn recv_fifo<const N: usize>() {
 #[kani::proof]
 #[kani::unwind(6)]
 #[kani::stub(alloc::fmt::format, stub_fmt)]
+#[kani::stub(core::slice::index::slice_index_fail, stub_slice_index_fail)]
 #[kani::stub(std::sync::Mutex::lock, stub_mutex_lock)]
 #[kani::stub(tracing::callsite::DefaultCallsite::interest, stub_interest)]
 #[kani::stub(tracing::__macro_support::__is_enabled, stub_is_enabled)]
 #[kani::stub(tracing::Event::dispatch, stub_dispatch)]
+#[kani::stub(std::io::Error::new, stub_io_error_new)]
 fn c19_recv_fifo_n2() {
     recv_fifo::<2>();
 }
@@ -150,10 +168,12 @@ fn c19_recv_fifo_n2() {
 #[kani::proof]
 #[kani::unwind(6)]
 #[kani::stub(alloc::fmt::format, stub_fmt)]
+#[kani::stub(core::slice::index::slice_index_fail, stub_slice_index_fail)]
 #[kani::stub(std::sync::Mutex::lock, stub_mutex_lock)]
 #[kani::stub(tracing::callsite::DefaultCallsite::interest, stub_interest)]
 #[kani::stub(tracing::__macro_support::__is_enabled, stub_is_enabled)]
 #[kani::stub(tracing::Event::dispatch, stub_dispatch)]
+#[kani::stub(std::io::Error::new, stub_io_error_new)]
 fn c19_recv_fifo_n3() {
     recv_fifo::<3>();
 }
@@ -229,10 +249,12 @@ fn conn_error(kind: ErrorKind) -> Error {
 #[kani::proof]
 #[kani::unwind(6)]
 #[kani::stub(alloc::fmt::format, stub_fmt)]
+#[kani::stub(core::slice::index::slice_index_fail, stub_slice_index_fail)]
 #[kani::stub(std::sync::Mutex::lock, stub_mutex_lock)]
 #[kani::stub(tracing::callsite::DefaultCallsite::interest, stub_interest)]
 #[kani::stub(tracing::__macro_support::__is_enabled, stub_is_enabled)]
 #[kani::stub(tracing::Event::dispatch, stub_dispatch)]
+#[kani::stub(std::io::Error::new, stub_io_error_new)]
 fn c16_datagram_reader_schedule_k3() {
     reader_schedule::<3>();
 }
@@ -240,10 +262,12 @@ fn c16_datagram_reader_schedule_k3() {
 #[kani::proof]
 #[kani::unwind(6)]
 #[kani::stub(alloc::fmt::format, stub_fmt)]
+#[kani::stub(core::slice::index::slice_index_fail, stub_slice_index_fail)]
 #[kani::stub(std::sync::Mutex::lock, stub_mutex_lock)]
 #[kani::stub(tracing::callsite::DefaultCallsite::interest, stub_interest)]
 #[kani::stub(tracing::__macro_support::__is_enabled, stub_is_enabled)]
 #[kani::stub(tracing::Event::dispatch, stub_dispatch)]
+#[kani::stub(std::io::Error::new, stub_io_error_new)]
 fn c16_datagram_reader_schedule_k4() {
     reader_schedule::<4>();
 }
@@ -270,6 +294,7 @@ fn io_kind(e: &io::Error) -> Option<ErrorKind> {
 #[kani::proof]
 #[kani::unwind(6)]
 #[kani::stub(alloc::fmt::format, stub_fmt)]
+#[kani::stub(core::slice::index::slice_index_fail, stub_slice_index_fail)]
 #[kani::stub(std::sync::Mutex::lock, stub_mutex_lock)]
 #[kani::stub(tracing::callsite::DefaultCallsite::interest, stub_interest)]
 #[kani::stub(tracing::__macro_support::__is_enabled, stub_is_enabled)]
